@@ -117,7 +117,7 @@ Proof.
   pose proof (i_f _ I) as If_. clear I.
   destruct s as [k w ch pr ores op sn]; cbn in *.
   destruct l; cbn in *; unfold exn_path, fault, timeout_enter, do_close, wclose, reported, mem_z in *; cbn in *; brk;
-  constructor; cbn; intros; fin.
+  constructor; cbn; intros; first [assumption | solve [auto] | fin].
 Qed.
 
 Lemma run_inv ls : forall s s' e, Inv s -> run s ls = Some (s', e) -> Inv s'.
@@ -156,6 +156,16 @@ Proof.
   match goal with r : io |- _ => destruct r | ok : bool |- _ => destruct ok end; try discriminate;
   unfold step, exn_path, fault, do_close, wclose, reported, pre_reported; cbn;
   destruct k, w, ch; cbn; fin; repeat eexists.
+Qed.
+
+(* a failed connect of Open(): closed, fault raised (unless the owner closed the sink before the connect ended) *)
+Lemma open_fail s :
+  Inv s -> opn s = Some OConn ->
+  exists s' e, step s (LOConn false) = Some (s', e) /\ reported s' = Closed /\ sk s' = SNone /\ opn s' = None /\
+    posts e = [] /\ (nfaults e = match cst s with Closed => 0 | _ => 1 end).
+Proof.
+  intros I O. destruct s as [k w ch pr ores op sn]; cbn in *. subst op.
+  unfold step, fault, do_close, wclose, reported; cbn. destruct ch, w; cbn; repeat eexists.
 Qed.
 
 Lemma timeout_reopen_ok s c :
@@ -437,7 +447,7 @@ Ltac brk :=
   end.
 
 Ltac fin :=
-  repeat (subst; cbn in *; match goal with
+  cbn in *; repeat (subst; match goal with
   | H : Some _ = Some _ |- _ => inversion H; clear H
   | H : PSleep _ = PSleep _ |- _ => inversion H; clear H
   | H : (_, _) = (_, _) |- _ => inversion H; clear H
@@ -454,7 +464,7 @@ Ltac fin :=
   | H : forall d, Some ?x = Some d -> _ |- _ => specialize (H x eq_refl)
   | H : forall p, PSleep ?x = PSleep p -> _ |- _ => specialize (H x eq_refl)
   | H : ?a = _ \/ ?a = _ -> _ |- _ => first [specialize (H (or_introl eq_refl)) | specialize (H (or_intror eq_refl))]
-  end); unfold ping_timeout, tps in *;
+  end); cbn in *; unfold ping_timeout, tps in *;
   try solve [repeat split; intros; first [congruence | discriminate | tauto | lia | constructor | eauto]].
 
 Ltac mz :=
@@ -481,7 +491,7 @@ Proof.
   pose proof (m_sleep _ I) as I11; pose proof (m_open_pl _ I) as I12. clear I.
   destruct s as [nw ch op tm sn ex q sd rc pd pa dl pls lw lpg]; cbn in *.
   destruct l; cbn in H; unfold shutdown, send_ping, ar_fail, wake_fail, tick_ok in H; cbn in H; brk.
-  all: constructor; cbn; intros; fin.
+  all: constructor; cbn; intros; first [assumption | solve [auto] | fin].
   all: unfold mem_z in *.
   all: try (apply remove_z_nodup; assumption).
   all: try (apply nodup_snoc; [assumption | intros X; apply I2 in X; congruence]).
